@@ -59,6 +59,7 @@ public:
   bool CANSendFrame(unsigned long id, unsigned char len, const unsigned char *buf, bool wait_sent) override {
     bool ok = true;
     if (!accept.empty()) { ok = accept.front(); accept.pop_front(); }
+    verif_now_ms += tx_ms;      // txms=<ms>: a driver whose CANSendFrame() blocks for <ms> of (virtual) time.  Outside the model (oracle-only family)
     if (g_log && g_out) {
       char t[64]; snprintf(t, 64, "tx:%lx:%u:", id, (unsigned)len); *g_out += t;
       *g_out += hex(buf, len > 8 ? 8 : len); *g_out += ok ? ":1 " : ":0 ";
@@ -67,7 +68,7 @@ public:
   }
   // copen=<ms>[,<failures>]: the driver's CANOpen() takes <ms> of (virtual) time and fails the first <failures> times.  Outside the model
   // (whose CANOpen is instantaneous and succeeds): used by oracle-only families
-  unsigned copen_ms = 0; int copen_fails = 0; bool copen_cfg = false;
+  unsigned copen_ms = 0; int copen_fails = 0; bool copen_cfg = false; unsigned tx_ms = 0;
   bool CANOpen() override {
     verif_now_ms += copen_ms;
     bool ok = true;
@@ -98,7 +99,11 @@ static void handle_msg(const tN2kMsg &m) {
     *g_out += hex(m.Data, (m.DataLen >= 0 && m.DataLen <= 223) ? m.DataLen : 0); *g_out += " ";
   }
 }
-static void on_open() { if (g_log && g_out) *g_out += "note:open "; }
+static tNMEA2000 *g_onopen_node = 0; static uint32_t g_onopen_iv = 0, g_onopen_off = 0;
+static void on_open() {
+  if (g_log && g_out) *g_out += "note:open ";
+  if (g_onopen_node) g_onopen_node->SetHeartbeatIntervalAndOffset(g_onopen_iv, g_onopen_off);    // onopen=: the application configures the heartbeat from its OnOpen callback
+}
 static std::vector<unsigned long> g_iso_accept;
 static bool iso_handler(unsigned long pgn, unsigned char requester, int idev) {
   for (unsigned long p : g_iso_accept) if (p == pgn) { if (g_log && g_out) { char t[48]; snprintf(t, 48, "note:iso:%lu ", pgn); *g_out += t; } return true; }
@@ -114,6 +119,7 @@ static std::vector<unsigned long> *plist(const std::string &v) {
 }
 
 static std::string sched(tN2kScheduler &s) { char t[32]; if (s.IsDisabled()) return "off"; snprintf(t, 32, "%llu", (unsigned long long)s.NextTime); return t; }
+
 
 static void run_case(const std::string &line);
 
@@ -164,6 +170,7 @@ static void run_case(const std::string &line) {
     for (int i = 0; i < ndev; i++) { char k[16]; snprintf(k, 16, "tx%d", i); if (kv.count(k)) n->ExtendTransmitMessages(plist(kv[k])->data(), i); }
     relocate(n, ndev);
     for (int i = 0; i < ndev; i++) { char k[16]; snprintf(k, 16, "rx%d", i); if (kv.count(k)) n->ExtendReceiveMessages(plist(kv[k])->data(), i); }
+    if (kv.count("txms")) n->tx_ms = (unsigned)atoi(kv["txms"].c_str());
     if (kv.count("copen")) { n->copen_cfg = true; n->copen_ms = (unsigned)atoi(kv["copen"].c_str()); size_t c = kv["copen"].find(','); if (c != std::string::npos) n->copen_fails = atoi(kv["copen"].substr(c + 1).c_str()); }
     if (kv.count("ok") && kv["ok"] == "1") n->SetHandleOnlyKnownMessages(true);
     if (kv.count("iso")) { std::vector<unsigned long> *l = plist(kv["iso"]); g_iso_accept.assign(l->begin(), l->end() - 1); n->SetISORqstHandler(iso_handler); }
@@ -208,6 +215,10 @@ static void run_case(const std::string &line) {
         n->SetProductInformation(pi);
       }
     }
+    // both given: pconf first, conf second - or, with cthenp=1, the other way round (a local copy exists when the constant strings are installed)
+    bool cthenp = kv.count("cthenp") && kv["cthenp"] == "1";
+    for (int pass = 0; pass < 2; pass++) {
+    if ((pass == 0) != cthenp) {
     if (kv.count("pconf")) {         // pconf=<hex inst1>,<hex inst2>,<hex manufacturer>: SetProgmemConfigurationInformation (the strings stay where they are: never freed)
       std::vector<char *> st;
       std::string c = kv["pconf"]; size_t pos = 0;
@@ -223,6 +234,7 @@ static void run_case(const std::string &line) {
       }
       if (st.size() == 3) n->SetProgmemConfigurationInformation(st[2], st[0], st[1]);
     }
+    } else {
     if (kv.count("conf")) {          // conf=<hex inst1>,<hex inst2>,<hex manufacturer> ("-" = empty): SetConfigurationInformation with exact-size heap strings
       std::vector<char *> st;
       std::string c = kv["conf"]; size_t pos = 0;
@@ -239,10 +251,15 @@ static void run_case(const std::string &line) {
       if (st.size() == 3) n->SetConfigurationInformation(st[2], st[0], st[1]);
       for (size_t i = 0; i < st.size(); i++) free(st[i]);
     }
+    }
+    }
     bool hb = kv.count("hb") && kv["hb"] == "1";
     // short=1: every public call is made with the shortest argument list whose omitted arguments equal the defaults the header documents
     // (written out here), so that the default arguments of the header are part of what is compared with the model
     bool shortc = kv.count("short") && kv["short"] == "1";
+    // onopen=<interval>,<offset>: the application configures the heartbeat from its SetOnOpen callback (the last thing Open() does)
+    g_onopen_node = 0;
+    if (kv.count("onopen")) { size_t c = kv["onopen"].find(','); if (c != std::string::npos) { g_onopen_iv = (uint32_t)tounum(kv["onopen"].substr(0, c)); g_onopen_off = (uint32_t)tounum(kv["onopen"].substr(c + 1)); g_onopen_node = n; } }
     n->SetMsgHandler(handle_msg);
     n->SetOnOpen(on_open);
     n->SetForwardStream(0);
